@@ -101,6 +101,14 @@ static char *load(const char *file, size_t *len)
 	die("cannot read by-value credential", path);
     char *buf = malloc(1 << 20);
     *len = fread(buf, 1, (1 << 20) - 1, f);
+    /* by-value material is padded with trailing newlines (ignored by the PEM parser) to one common length, so
+       that different credentials of one kind have the same byte length: whatever identifies a configuration must then
+       depend on the content itself, not on its length or its first bytes */
+    if (*len > 0 && buf[0] == '-') {
+	size_t target = *len <= 12288 ? 12288 : *len;	/* one length for (nearly) everything */
+	while (*len < target)
+	    buf[(*len)++] = '\n';
+    }
     buf[*len] = '\0';
     fclose(f);
     return buf;
